@@ -7,7 +7,9 @@ The implementation oracle matters most here (panics can hide in code the model a
    a 10 s timeout and RLIMIT_AS = 1 GiB, argv from the whole option grammar with adversarial value
    pools × adversarial stdin; status must be 0 or 1."""
 import resource
+import os
 import subprocess
+import time
 
 from cases import evaluate, run_corpus
 from common import ENV, HARNESS_BIN, NPROC, build_tuc, case_line, hx, parse_result
@@ -96,7 +98,7 @@ def run(chk):
                 "--json -m on fixed probe inputs; boundary records (only delimiter bytes) alone and as the 2nd/3rd record after records with several "
                 "fields, literal and regex delimiters × subsets of -g -p -s -j -r -t (watchdog 8 s, catch_unwind); CLI: random argv from the whole option grammar with adversarial "
                 "value pools (huge/negative/zero indexes, unbalanced/escaped braces, empty strings, multi-byte text, invalid regexes, -M extremes) "
-                "× adversarial stdin, on the debug AND the release build under timeout 10 s and RLIMIT_AS 1 GiB; non-trivial = argv with ≥ 2 options "
+                "× adversarial stdin, on the debug AND the release build under timeout 10 s and RLIMIT_AS 1 GiB; -h / --help / -V / no argument / an unknown argument with stdout on a pseudo-terminal under TERM=xterm-256color, dumb, unset and NO_COLOR (the coloured-help code); non-trivial = argv with ≥ 2 options "
                 "or a bounds string of ≥ 2 symbols")
     run_corpus(chk)
     rng = chk.rng
@@ -160,6 +162,53 @@ def run(chk):
         st = i.split(" ")[0]
         if st in ("panic", "hang", "killed"):
             chk.report_oracle("an engine panics / hangs / aborts", {"case": l, "implementation": i})
+    # ---- the environment-dependent paths: the help texts are coloured (a chain of Regex::new(..).unwrap() / replace_all) only when stdout is
+    # a terminal and TERM / NO_COLOR allow it — a pipe never reaches that code
+    import pty
+    import select
+    for release in (False, True):
+        binary = build_tuc(release=release)
+        for argv in ([], ["-h"], ["--help"], ["-V"], ["-f", "1", "-h"], ["--bogus"]):
+            for envx in ({"TERM": "xterm-256color"}, {"TERM": "dumb"}, {}, {"TERM": "xterm", "NO_COLOR": "1"}):
+                env = {k: v for k, v in ENV.items() if k not in ("TERM", "NO_COLOR")}
+                env.update(envx)
+                try:
+                    master, slave = pty.openpty()
+                except OSError:
+                    chk.count("tty:no-pseudo-terminal-available")          # nothing is concluded without one
+                    continue
+                try:
+                    p = subprocess.Popen([binary] + argv, stdin=subprocess.DEVNULL, stdout=slave, stderr=subprocess.DEVNULL, env=env)
+                    os.close(slave)
+                    got = b""
+                    t0 = time.time()
+                    while time.time() - t0 < 10:
+                        r, _, _ = select.select([master], [], [], 0.2)
+                        if r:
+                            try:
+                                chunk = os.read(master, 65536)
+                            except OSError:
+                                break
+                            if not chunk:
+                                break
+                            got += chunk
+                        elif p.poll() is not None:
+                            break
+                    try:
+                        rc = p.wait(timeout=10)
+                    except subprocess.TimeoutExpired:
+                        p.kill()
+                        rc = "timeout"
+                finally:
+                    os.close(master)
+                chk.evaluations += 1
+                chk.count("tty:" + str(rc))
+                chk.nontrivial_add(("tty", release, tuple(argv), tuple(sorted(envx.items()))))
+                want = 1 if argv == ["--bogus"] else 0
+                if rc != want or (want == 0 and b"tuc" not in got):
+                    chk.report_oracle("with stdout on a terminal the invocation does not end with the expected status / prints no help",
+                                      {"argv": argv, "env": envx, "stdout_is_a_tty": True, "build": "release" if release else "debug", "status": rc,
+                                       "stdout_hex": got[:400].hex()})
     # ---- CLI
     n = 3000 if chk.tier == "quick" else 40000
     cli_cases = [(rand_argv(rng), rand_stdin(rng)) for _ in range(n)]
